@@ -107,6 +107,27 @@ func init() {
 			run: func(_ []TV, flds []trFld) ([]TV, []trFld) {
 				return []TV{tvBytes([]byte(zapcore.Level(fldOf(flds, "lvl").int64()).CapitalString()))}, flds
 			}},
+		trFn{table: "TransLevel", name: "LevelEnabled",
+			gen: func(r *Rand) ([]TV, []trFld) { return []TV{tvInt(anyLevel(r))}, []trFld{{"lvl", tvInt(anyLevel(r))}} },
+			run: func(args []TV, flds []trFld) ([]TV, []trFld) {
+				return []TV{tvBool(zapcore.Level(fldOf(flds, "lvl").int64()).Enabled(zapcore.Level(args[0].int64())))}, flds
+			}},
+		trFn{table: "TransLevel", name: "LevelMarshalText",
+			gen: func(r *Rand) ([]TV, []trFld) { return nil, []trFld{{"lvl", tvInt(anyLevel(r))}} },
+			run: func(_ []TV, flds []trFld) ([]TV, []trFld) {
+				b, err := zapcore.Level(fldOf(flds, "lvl").int64()).MarshalText()
+				if err != nil {
+					panic(err)
+				}
+				return []TV{tvBytes(b), tvList(nil)}, flds
+			}},
+		trFn{table: "TransLevel", name: "LevelSet",
+			gen: func(r *Rand) ([]TV, []trFld) { return []TV{tvBytes(trLevelText(r))}, lvlFlds(r) },
+			run: func(args []TV, flds []trFld) ([]TV, []trFld) {
+				l := zapcore.Level(fldOf(flds, "lvl").int64())
+				err := l.Set(string(args[0].bytes()))
+				return []TV{trLevelErr(err, args[0].bytes())}, setLvl(flds, l)
+			}},
 		trFn{table: "TransLevel", name: "LevelOf",
 			gen: func(r *Rand) ([]TV, []trFld) {
 				var en []TV
